@@ -230,6 +230,10 @@ pub struct Input {
     pub bytes: Vec<u8>,
     /// a complete request (a reply or a close is owed) or a truncated one (waiting is legitimate)
     pub complete: bool,
+    /// commands issued (one at a time, on the canary connection) before / after the input, e.g. to
+    /// switch a process-wide setting on and off again
+    pub prelude: Vec<Vec<Vec<u8>>>,
+    pub postlude: Vec<Vec<Vec<u8>>>,
 }
 
 fn cmd(args: &[&[u8]]) -> Vec<u8> {
@@ -244,6 +248,8 @@ pub fn corpus(rng: &mut Rng, thorough: bool) -> Vec<Input> {
             desc,
             bytes,
             complete,
+            prelude: vec![],
+            postlude: vec![],
         })
     };
     // --- raw bytes: length prefixes
@@ -301,6 +307,57 @@ pub fn corpus(rng: &mut Rng, thorough: bool) -> Vec<Input> {
         add("cmd:setcluster-range", format!("SETCLUSTER migrating range {}", desc), cmd(&[b"UMCTL", b"SETCLUSTER", b"v2", b"1000002", b"FORCE", b"x", b"127.0.0.1:6000", b"migrating", b"1", range, b"7", b"127.0.0.1:7000", b"127.0.0.1:6000", b"127.0.0.1:7999", b"127.0.0.1:6999"]), true);
         add("cmd:setcluster-range", format!("PRECHECK range {}", desc), cmd(&[b"UMCTL", b"PRECHECK", b"mgr-0.2", b"x", b"migrating", b"1", range, b"7", b"a:1", b"b:1", b"c:1", b"d:1"]), true);
     }
+    // range LISTS (several ranges): sorting / merging arithmetic on client supplied bounds
+    for (desc, ranges) in [
+        ("0-18446744073709551615 5-6", vec![&b"0-18446744073709551615"[..], b"5-6"]),
+        ("18446744073709551615-18446744073709551615 0-1", vec![b"18446744073709551615-18446744073709551615", b"0-1"]),
+        ("18446744073709551614-18446744073709551615 18446744073709551615-18446744073709551615", vec![b"18446744073709551614-18446744073709551615", b"18446744073709551615-18446744073709551615"]),
+        ("9-3 2-1 0-0", vec![b"9-3", b"2-1", b"0-0"]),
+    ] {
+        let n = ranges.len().to_string();
+        let mut stable: Vec<&[u8]> = vec![b"UMCTL", b"SETCLUSTER", b"v2", b"1000005", b"FORCE", b"x", b"127.0.0.1:6000", n.as_bytes()];
+        stable.extend(ranges.iter().cloned());
+        add("cmd:setcluster-range-list", format!("SETCLUSTER stable ranges {}", desc), cmd(&stable), true);
+        let mut mig: Vec<&[u8]> = vec![b"UMCTL", b"SETCLUSTER", b"v2", b"1000006", b"FORCE", b"x", b"127.0.0.1:6000", b"migrating", n.as_bytes()];
+        mig.extend(ranges.iter().cloned());
+        mig.extend([&b"7"[..], b"127.0.0.1:7000", b"127.0.0.1:6000", b"127.0.0.1:7999", b"127.0.0.1:6999"]);
+        add("cmd:setcluster-range-list", format!("SETCLUSTER migrating ranges {}", desc), cmd(&mig), true);
+        let mut pre: Vec<&[u8]> = vec![b"UMCTL", b"PRECHECK", b"mgr-0.2", b"x", b"migrating", n.as_bytes()];
+        pre.extend(ranges.iter().cloned());
+        pre.extend([&b"7"[..], b"a:1", b"b:1", b"c:1", b"d:1"]);
+        add("cmd:setcluster-range-list", format!("PRECHECK ranges {}", desc), cmd(&pre), true);
+    }
+    // the slow log keeps a shortened copy of the command: arguments with multi-byte characters
+    // around the cut, with the slow log switched on through CONFIG SET (and off again afterwards)
+    let slow_on: Vec<Vec<Vec<u8>>> = vec![
+        vec![b"CONFIG".to_vec(), b"SET".to_vec(), b"slowlog_log_slower_than".to_vec(), b"0".to_vec()],
+        vec![b"CONFIG".to_vec(), b"SET".to_vec(), b"slowlog_sample_rate".to_vec(), b"1".to_vec()],
+    ];
+    let slow_off: Vec<Vec<Vec<u8>>> = vec![
+        vec![b"UMCTL".to_vec(), b"SLOWLOG".to_vec(), b"GET".to_vec(), b"16".to_vec()],
+        vec![b"CONFIG".to_vec(), b"SET".to_vec(), b"slowlog_log_slower_than".to_vec(), b"1000000000".to_vec()],
+        vec![b"CONFIG".to_vec(), b"SET".to_vec(), b"slowlog_sample_rate".to_vec(), b"1000".to_vec()],
+        vec![b"UMCTL".to_vec(), b"SLOWLOG".to_vec(), b"RESET".to_vec()],
+    ];
+    let mut slow_inputs: Vec<Input> = vec![];
+    for (desc, arg) in [
+        ("2-byte characters straddling byte 100", [b"a".to_vec(), "\u{e9}".repeat(80).into_bytes()].concat()),
+        ("3-byte characters straddling byte 100", "\u{20ac}".repeat(60).into_bytes()),
+        ("4-byte characters straddling byte 100", [b"ab".to_vec(), "\u{1f600}".repeat(40).into_bytes()].concat()),
+        ("invalid UTF-8 of 300 bytes", vec![0xff; 300]),
+        ("exactly 100 ASCII bytes", vec![b'k'; 100]),
+    ] {
+        for name in [&b"GET"[..], b"CLUSTER", b"NOSUCHCOMMAND"] {
+            slow_inputs.push(Input {
+                class: "cmd:slowlog-multibyte",
+                desc: format!("slow log on, then {} with {}", String::from_utf8_lossy(name), desc),
+                bytes: cmd(&[name, &arg]),
+                complete: true,
+                prelude: slow_on.clone(),
+                postlude: slow_off.clone(),
+            });
+        }
+    }
     add("cmd:setcluster-compressed", "COMPRESS with garbage".into(), cmd(&[b"UMCTL", b"SETCLUSTER", b"v2", b"1000003", b"COMPRESS", b"!!!!notbase64"]), true);
     add("cmd:setcluster-compressed", "COMPRESS with base64 of garbage".into(), cmd(&[b"UMCTL", b"SETCLUSTER", b"v2", b"1000004", b"COMPRESS", base64::encode(rng.bytes(200)).as_bytes()]), true);
     add("cmd:setcluster-compressed", "COMPRESS gzip bomb-ish".into(), {
@@ -329,6 +386,7 @@ pub fn corpus(rng: &mut Rng, thorough: bool) -> Vec<Input> {
     }
     add("cmd:long-name", "command name of 100 KB".into(), cmd(&[&vec![b'A'; 100_000]]), true);
     add("cmd:mset-odd", "MSET with odd arguments".into(), cmd(&[b"MSET", b"a", b"1", b"b"]), true);
+    v.extend(slow_inputs);
     v
 }
 
@@ -359,6 +417,10 @@ fn run_input(j: &mut Judge, cp: &mut ChildProc, canary: &mut Conn, input: &Input
             return true;
         }
     };
+    for argv in input.prelude.iter() {
+        let a: Vec<&[u8]> = argv.iter().map(|x| x.as_slice()).collect();
+        let _ = canary.roundtrip(&a, Duration::from_secs(20));
+    }
     let _ = hostile.s.set_write_timeout(Some(Duration::from_secs(20)));
     let wrote = hostile.s.write_all(&input.bytes).is_ok();
     let _ = hostile.s.flush();
@@ -453,6 +515,10 @@ fn run_input(j: &mut Judge, cp: &mut ChildProc, canary: &mut Conn, input: &Input
     }
     let _ = (wrote, verdict_done);
     drop(hostile);
+    for argv in input.postlude.iter() {
+        let a: Vec<&[u8]> = argv.iter().map(|x| x.as_slice()).collect();
+        let _ = canary.roundtrip(&a, Duration::from_secs(20));
+    }
     // panics?
     std::thread::sleep(Duration::from_millis(5));
     let panics = cp.new_panics();
